@@ -332,6 +332,21 @@ def r4(ctx):
                instance="undeploy:withdraw-after-undeploy",
                message="a deployment that is kept alive (it still has dependants) is nevertheless removed from the dependants of the deployments it wraps: "
                        "those are undeployed while it is still live")
+    # every path that wires a wrapper to its wrapped deployment records the dependency edge
+    fi = p.func(f"{MGR}._inner_deploy")
+    gi = fi.cfg
+    adds = [n.id for n in gi.nodes.values() if any(
+        isinstance(c.func, ast.Attribute) and c.func.attr == "add" and "self.dependency_graph[" in unparse(c.func.value) for c in n.calls())]
+    wires = [n for n in gi.nodes.values() if n.kind == "return" and any(
+        isinstance(x, ast.Subscript) and unparse(x.value) == "self.deployments_map" for x in n.walk())]
+    ctx.require(bool(wires), "C26.R4: the return that injects the wrapped connector was not found in _inner_deploy")
+    for wnode in wires:
+        okw = bool(adds) and gi.dominates(adds, wnode.id)
+        wit = gi.path(gi.entry, [wnode.id], avoid=adds) if not okw else None
+        ctx.ob("R4", "a wrapper is recorded as a dependant of the deployment it wraps on every path", okw, func=fi, node=wnode.ast,
+               instance="_inner_deploy:dependency-edge",
+               message="a wrapper can be wired to an already registered wrapped deployment without being added to its dependency set: undeploying the "
+                       "first user tears the wrapped deployment down under the still-live wrapper", witness=gi.describe(wit) if wit else [])
     f = p.func(f"{MGR}.undeploy_all")
     loops = [n for n in f.body_nodes() if isinstance(n, ast.For)]
     ok = bool(loops) and all(
@@ -380,7 +395,7 @@ def r5(ctx):
 
 
 RULES = [("R1", r1), ("R2", r2), ("R3", r3), ("R4", r4), ("R5", r5)]
-FLOORS = {"R1": 18, "R2": 5, "R3": 3, "R4": 5, "R5": 3}
+FLOORS = {"R1": 18, "R2": 5, "R3": 3, "R4": 6, "R5": 3}
 
 _IDIOM = "if not self.deploying:\n            self.deploying = True\n            await self.deploy(self.external)"
 
@@ -415,6 +430,9 @@ VARIANTS = [
     V("withdraw from other dependency sets even when kept alive (S16 revert)", MFILE, f"{MGR}.undeploy",
       "            for name, deps in list(((k, v) for k, v in self.dependency_graph.items() if k != deployment_name)):\n                deps.discard(deployment_name)\n                if len(deps) == 0:\n                    await self.undeploy(name)",
       "        for name, deps in list(((k, v) for k, v in self.dependency_graph.items() if k != deployment_name)):\n            deps.discard(deployment_name)\n            if len(deps) == 0:\n                await self.undeploy(name)", "R4"),
+    V("dependency edge recorded only when the wrapper triggers the deployment", MFILE, f"{MGR}._inner_deploy",
+      "            await self._deploy(inner_config)\n", "            await self._deploy(inner_config)\n            self.dependency_graph[deployment_name].add(deployment_config.name)\n", None),
+    V("dependency edge dropped", MFILE, f"{MGR}._inner_deploy", "self.dependency_graph[deployment_name].add(deployment_config.name)", "pass", "R4"),
     V("delete after await", MFILE, f"{MGR}.undeploy", "del self.deployments_map[deployment_name]\n            ", "", "R4"),
     V("undeploy_all iterates live map", MFILE, f"{MGR}.undeploy_all", "dict(self.deployments_map)", "self.deployments_map", "R4"),
     V("wait only when not yet registered (S15 revert)", MFILE, f"{MGR}._inner_deploy",
